@@ -106,7 +106,7 @@ static inline std::string dump_methods(Document& doc)
 // whole-word replacement (identifier renaming applied to a dump or to model text)
 static inline std::string rename_word(const std::string& text, const std::string& from, const std::string& to)
 {
-    auto idc = [](char c) { return isalnum((unsigned char)c) || c == '_'; };
+    auto idc = [](char c) { return isalnum((unsigned char)c) || c == '_' || c == '$' || c == '#'; };
     std::string o;
     for (size_t i = 0; i < text.size();) {
         if (text.compare(i, from.size(), from) == 0 && (i == 0 || !idc(text[i - 1])) && (i + from.size() >= text.size() || !idc(text[i + from.size()]))) { o += to; i += from.size(); }
